@@ -272,6 +272,7 @@ func newSim(cfg Config) *Sim {
 		arenaP = make([]partner, maxG)
 		arenaChans = make([]*chanCore, maxG)
 	}
+	resetPools()
 	s := &Sim{cfg: cfg, rng: cfg.Seed ^ 0x5851f42d4c957f2d, maxSteps: cfg.MaxSteps}
 	if s.maxSteps <= 0 {
 		s.maxSteps = 1 << 20
